@@ -96,6 +96,9 @@ def run(ctx):
     rep.rule("FM-5", "sequence freshness uses wrapping arithmetic", floor=1)
     rep.rule("FM-6", "the selected Erbest is re-registered with its age", floor=4)
     rep.rule("FM-7", "a full message list evicts the oldest entry", floor=1)
+    rep.rule("FM-8", "records age by the BMCA interval the instance was called with, and the window is counted in the "
+                     "port's announce interval (value-flow chains from PtpInstanceState::bmca / Port::new to the "
+                     "foreign master records)", floor=9)
 
     # ---------------- FM-1
     try:
@@ -385,3 +388,6 @@ def run(ctx):
         rep.anchor_missing("FM-6", str(e))
 
     check_eviction(rep, prog)
+    from rules import flow_common
+    flow_common.check_ageing_step(rep, prog, "FM-8")
+    flow_common.check_window_interval(rep, prog, "FM-8")
